@@ -270,6 +270,11 @@ def run(chk):
         probes.append((rng.randrange(2 ** 29), True))
         probes.append((rng.randrange(2 ** 11), False))
         for pid, pext in probes:
+            if not pext:
+                # the property speaks about received 29-bit identifiers only: what a matrix containing J1939 frames does with a
+                # received 11-bit identifier is left open (neither judged nor tied)
+                chk.count("probe-11bit-outside-property")
+                continue
             got = probe(db, frames_desc, pid, pext)
             # the python-can entry point must select the same frame (a stand-in for can.Message: python-can is not installed)
             if 0 <= pid < (2 ** 29 if pext else 2 ** 11):
